@@ -7,7 +7,7 @@ RULE = ("MC: small universe (4 satellites, 3 signals, <= 6 cells): for every adm
         "precondition yields its error; the spec's signal tables are checked injective; TV: for all 49 MSM message types seeded admissible triples "
         "(|S| 1..64, |G| 1..8, densities 5-100 %, incl. satellites 1 and 64, exactly 64 cells) in ascending / reversed / shuffled list order and one "
         "input per violation class (satellite 0/65/100/255, unrecognised signal, duplicate satellite, duplicate cell, satellite without cell, cell "
-        "without satellite, > 64 mask cells, no cells, empty); masks are read from the frame at payload bits 73/137/169 and compared by TLC with "
+        "without satellite, > 64 mask cells, no cells, empty), in both build profiles (the overflow-checked one on a smaller sample); masks are read from the frame at payload bits 73/137/169 and compared by TLC with "
         "SatMask/SigMask/CellMask computed from the input with positions from SigTables; decoded rows must be sorted by satellite then signal "
         "position and each row's payload digest must follow its key; non-trivial = all; distinct = distinct (type, S, cells, order)")
 
@@ -24,6 +24,12 @@ def run(chk):
     r = tv("Trace_Msm", "Trace_Msm.cfg", t, shards=12, tag="C10")
     chk.add_tv("msm", r)
     report_rejects(chk, r, sig, lambda ev, d: "MSM %s (%s): masks / row order / error differ from the Msm specification" % (ev.get("number"), ev.get("class")))
+    # the same (smaller) campaign in the overflow-checked build: an invalid input must be answered by its error there too
+    t2 = record("msm", chk.path("msm-relchk.ndjson"), profile="relchk", seed=chk.seed + 7, per_type=9 if q else 200, timeout=3000)
+    r2 = tv("Trace_Msm", "Trace_Msm.cfg", t2, shards=12, tag="C10-relchk")
+    chk.add_tv("msm[relchk]", r2)
+    report_rejects(chk, r2, lambda ev, d: "[overflow-checks] " + sig(ev, d),
+                   lambda ev, d: "[overflow-checks] MSM %s (%s): masks / row order / error differ from the Msm specification" % (ev.get("number"), ev.get("class")))
     classes = {}
     for ln, o in r["lines"]:
         classes[o["class"]] = classes.get(o["class"], 0) + 1
